@@ -1078,6 +1078,73 @@ def crossing_detected(et, es):
     return False
 
 
+def whole_statement_edit(et, es):
+    """True when the two bodies differ only by whole simple statements (`...;` without a block of their own) taken out, put in or moved
+    inside the blocks they stand in - every other statement, and every block head, is token for token the same and in the same
+    order. (A move across an early exit is such an edit; a renamed local, a changed operand, a flipped branch are not.)"""
+    def body(ts):
+        try:
+            k = ts.index('{')
+        except ValueError:
+            return None
+        return ts[k + 1:_close_of(ts, k)]
+    ba, bb = body(et), body(es)
+    if ba is None or bb is None or et[:et.index('{')] != es[:es.index('{')]:
+        return False
+    changed = [False]
+    def same(xa, xb):
+        sa, sb = split_statements(xa), split_statements(xb)
+        simple = lambda st: '{' not in st
+        # the compound statements (those with blocks) and the tail expression must pair up one to one, in order
+        ca = [st for st in sa if not simple(st) or not st or st[-1] != ';']
+        cb = [st for st in sb if not simple(st) or not st or st[-1] != ';']
+        if len(ca) != len(cb):
+            return False
+        ka = [' '.join(st) for st in sa if simple(st) and st and st[-1] == ';']
+        kb = [' '.join(st) for st in sb if simple(st) and st and st[-1] == ';']
+        # the same, with the compound statements as numbered place holders: a simple statement that moved past one shows here
+        def seq(ss):
+            r, n = [], 0
+            for st in ss:
+                if simple(st) and st and st[-1] == ';':
+                    r.append(' '.join(st))
+                else:
+                    r.append('<%d>' % n)
+                    n += 1
+            return r
+        if ka != kb or seq(sa) != seq(sb):
+            from collections import Counter
+            ca_, cb_ = Counter(ka), Counter(kb)
+            removed, inserted = ca_ - cb_, cb_ - ca_
+            # statements taken out, or put in, or (same multiset) moved - but not one statement replaced by another, which is a
+            # statement that was changed
+            if removed and inserted:
+                return False
+            changed[0] = True
+        for x, y in zip(ca, cb):
+            if x == y:
+                continue
+            if simple(x) or simple(y):
+                return False          # a tail expression changed
+            # same head tokens up to each block, then recurse into the blocks
+            i = j = 0
+            while i < len(x) and j < len(y):
+                if x[i] == '{' and y[j] == '{':
+                    ci, cj = _close_of(x, i), _close_of(y, j)
+                    if not same(x[i + 1:ci], y[j + 1:cj]):
+                        return False
+                    i, j = ci + 1, cj + 1
+                elif x[i] == y[j]:
+                    i += 1
+                    j += 1
+                else:
+                    return False
+            if i != len(x) or j != len(y):
+                return False
+        return True
+    return same(ba, bb) and changed[0]
+
+
 SKELETON = {';', '{', '}', 'if', 'else', 'while', 'for', 'loop', 'match', 'return', 'let', '=>', 'break', 'continue', '?'}
 
 
@@ -1369,15 +1436,25 @@ def generate(unit, canary=False, expand=True):
             restructured = False
             rearranged = False
             deleted_only = False
+            whole_stmt = False
+            crossing = False
             if status != 'merged' or item.kind != 'fn':
                 perturbed = False
                 dropped = False
             if status == 'merged' and item.kind == 'fn':
                 restructured = [x for x in et if x in SKELETON] != [x for x in es if x in SKELETON]
-                rearranged = content_bag(et) == content_bag(es) and not local_substituted(et, es) and not crossing_detected(et, es)
+                crossing = crossing_detected(et, es)
+                rearranged = content_bag(et) == content_bag(es) and not local_substituted(et, es) and not crossing
                 # executable text was only taken away (nothing added, nothing moved): every annotation still stands where it
                 # stood relative to the statements that are left
                 deleted_only = all(op[0] in ('equal', 'delete') for op in difflib.SequenceMatcher(a=et, b=es, autojunk=False).get_opcodes())
+                # whole statements put in or taken out, or moved across an early exit - and nothing else touched: every other statement
+                # still carries its annotations (two independent statements that merely changed places are not included: proofs do
+                # lean on the order in which, say, two nibbles are set)
+                try:
+                    whole_stmt = whole_statement_edit(et, es) and (sorted(et) != sorted(es) or crossing)
+                except Exception:
+                    whole_stmt = False
                 for k3, t3 in enumerate(gen):
                     if not t3.ghost and re.match(r'^[A-Z][A-Z0-9_]{2,}$', t3.text) and (k3 == 0 or gen[k3 - 1].text != '::'):
                         unit.caps_idents.add((t3.text, rel))
@@ -1386,7 +1463,7 @@ def generate(unit, canary=False, expand=True):
             start_line, end_line = len(out_chunks) - 1, gen[0].trivia.count('\n')
             for k2, v in hits.items():
                 unit.hits[k2] = unit.hits.get(k2, 0) + v
-            unit.items.append({'file': rel, 'path': ' :: '.join(path), 'kind': item.kind, 'status': status, 'restructured': restructured, 'perturbed': perturbed, 'dropped': dropped, 'rearranged': rearranged, 'deleted_only': deleted_only,
+            unit.items.append({'file': rel, 'path': ' :: '.join(path), 'kind': item.kind, 'status': status, 'restructured': restructured, 'perturbed': perturbed, 'dropped': dropped, 'rearranged': rearranged, 'deleted_only': deleted_only, 'whole_stmt': whole_stmt,
                                'hits': hits, 'lines': (start_line, end_line), 'src_line': stoks_all[sitem.hstart].line,
                                'has_body': item.kind == 'fn' and item.body_open is not None})
             pos = item.end
